@@ -55,9 +55,11 @@ import contextlib
 
 @contextlib.contextmanager
 def default_dtype(dtype):
-    """torchtree's own entry point never changes torch's default dtype (float32); a double-precision analysis gives
-    every Parameter an explicit dtype.  The harness runs with a float64 default, which hides buffers created without
-    a dtype; this context evaluates a case the way the real program does"""
+    """torchtree's entry point sets torch's default dtype (float64 unless --dtype says otherwise) and so does the
+    harness, which hides buffers created without a dtype.  A program using the package as a library keeps torch's
+    float32 default and gives its Parameters an explicit float64 dtype (the repository's own tests run under the
+    float32 default); this context evaluates a case that way.  Only usable for classes that support the mixture
+    (the tree likelihood raises a dtype mismatch there, which is a clean rejection, not a wrong number)"""
     import torch
 
     old = torch.get_default_dtype()
